@@ -461,7 +461,7 @@ func (x *Exec) havocDeclared(st *State, pre *State, callee *ssa.Function, ct *Co
 					continue
 				}
 				for i := 0; i < stt.NumFields(); i++ {
-					if stt.Field(i).Name() == e.Name {
+					if fieldIs(bt, stt.Field(i), e.Name) {
 						k := regHeap(fieldKey(bt, i), heapSortField(bt, i))
 						nv := x.freshVar("mod_"+e.Name, sortOfStatic(stt.Field(i).Type()))
 						st.add(rangeFacts(nv, stt.Field(i).Type())...)
